@@ -282,7 +282,7 @@ def r5(ctx, prog):
     psz = {True: prog.const("MI_SMALL_PAGE_SIZE"), False: prog.const("MI_MEDIUM_PAGE_SIZE")}
     locs = {}
     for n in g.nodes:
-        if n["k"] == "DeclStmt":
+        if n["k"] == "DeclStmt" and not n.get("inl_param"):     # (not the parameter temporaries of inlined helpers)
             for dd in n["decls"]:
                 locs[dd["n"]] = dd
     # the locals by role: the function returns <page start pointer> + <start offset>; the page size is the local computed
@@ -296,7 +296,7 @@ def r5(ctx, prog):
             dd_ = next((dd for dd in locs.values() if dd["d"] == d_), None)
             if dd_ is not None:
                 roles["pstart" if "*" in dd_["t"] else "start_offset"] = dd_
-    ps = [dd for dd in locs.values() if "init" in dd and g.mentions_field(dd["init"], "slice_count")]
+    ps = [dd for dd in locs.values() if "init" in dd and (g.mentions_field(dd["init"], "slice_count") or "->slice_count" in rl.canon(g, dd["init"]))]
     if len(ps) == 1:
         roles["psize"] = ps[0]
     if not all(k in roles for k in ("psize", "pstart", "start_offset")):
